@@ -2006,6 +2006,7 @@ pub fn run(ctx: &mut Ctx) {
     super::c08_tok::run(ctx);
     super::c08_order1::run(ctx);
     super::c08_aac::run(ctx);
+    super::c08_fqz::run(ctx);
     let _ = std::fs::remove_dir_all(work_root());
     ctx.sample(|| "c08 r4enc0 6e6f6f646c6573".into());
     ctx.sample(|| "rt nx c1 x6e6f6f646c6573 -".into());
@@ -2020,6 +2021,7 @@ fn replay_inproc(ctx: &mut Ctx, case: &[String]) {
     if super::c08_tok::replay(ctx, case) { return; }
     if super::c08_order1::replay(ctx, case) { return; }
     if super::c08_aac::replay(ctx, case) { return; }
+    if super::c08_fqz::replay(ctx, case) { return; }
     match case.first().map(|s| s.as_str()) {
         Some("rt") if case.len() >= 4 => {
             let Some(c) = Codec::parse(&case[1], &case[2]) else { return };
